@@ -402,6 +402,24 @@ func genSelector(repo, out string) {
 	// bootstrap list and in the filter closure
 	watchOK, bootOK, cdOK := false, false, false
 	acts := map[[2]bool]string{}
+	// how the Updated branch computes its two match bits: `oldMatches := matches(<arg>)`, `newMatches := matches(<arg>)`
+	// (both through the `matches` closure, i.e. ID query AND label queries) and nothing else
+	updOld, updNew := ".unknown", ".unknown"
+	updArg := func(st ast.Stmt, name string) string {
+		as, ok := st.(*ast.AssignStmt)
+		if !ok || len(as.Lhs) != 1 || len(as.Rhs) != 1 || src(as.Lhs[0]) != name || as.Tok.String() != ":=" {
+			return ".unknown"
+		}
+
+		switch src(as.Rhs[0]) {
+		case "matches(event.Old)":
+			return ".old"
+		case "matches(event.Resource)":
+			return ".resource"
+		}
+
+		return ".unknown"
+	}
 
 	if fd := method(coll, "ResourceCollection", "WatchAll"); fd != nil {
 		ast.Inspect(fd.Body, func(n ast.Node) bool {
@@ -430,11 +448,30 @@ func genSelector(repo, out string) {
 						r, ok := lastReturn(&ast.BlockStmt{List: cc.Body})
 						cdOK = ok && len(cc.Body) == 1 && r == "matches(event.Resource)"
 					case "{state.Updated}":
-						if len(cc.Body) != 3 || src(cc.Body[0]) != "oldMatches := matches(event.Old)" || src(cc.Body[1]) != "newMatches := matches(event.Resource)" {
+						// the two match bits first, the case table last; anything in between (a second assignment to one
+						// of the bits, a conditional recomputation) leaves the bit it touches unrecognised
+						if len(cc.Body) < 3 {
 							continue
 						}
 
-						sw, ok := cc.Body[2].(*ast.SwitchStmt)
+						updOld, updNew = updArg(cc.Body[0], "oldMatches"), updArg(cc.Body[1], "newMatches")
+
+						for _, extra := range cc.Body[2 : len(cc.Body)-1] {
+							txt := src(extra)
+							if strings.Contains(txt, "oldMatches =") || strings.Contains(txt, "oldMatches, ") {
+								updOld = ".unknown"
+							}
+
+							if strings.Contains(txt, "newMatches =") || strings.Contains(txt, "newMatches, ") {
+								updNew = ".unknown"
+							}
+
+							if !strings.Contains(txt, "oldMatches") && !strings.Contains(txt, "newMatches") {
+								updOld, updNew = ".unknown", ".unknown"
+							}
+						}
+
+						sw, ok := cc.Body[len(cc.Body)-1].(*ast.SwitchStmt)
 						if !ok || sw.Tag != nil || sw.Init != nil {
 							continue
 						}
@@ -541,6 +578,9 @@ func genSelector(repo, out string) {
 	l.line("def cachePred : SelPred := %s", pred(cacheOK))
 	l.line("/-- WatchAll filter closure: `case state.Created, state.Destroyed: return matches(event.Resource)` -/")
 	l.line("def createdDestroyedByMatch : Bool := %s", leanBool(cdOK))
+	l.line("/-- WatchAll filter closure on `Updated`: `oldMatches := matches(⋯)`, `newMatches := matches(⋯)` — both through the `matches` closure (ID query AND label queries), assigned once -/")
+	l.line("def updatedOldArg : UpdArg := %s", updOld)
+	l.line("def updatedNewArg : UpdArg := %s", updNew)
 	l.line("/-- WatchAll filter closure on `Updated`, by (old matches, new matches) -/")
 	l.line("def rewriteAct : Bool → Bool → RewriteAct")
 
